@@ -14,10 +14,11 @@ from ..prng import Stream
 from ..runner import Machine, violation
 
 PAYLOAD_NAMES = ["#app.bin", "#rad.bin", "#file.bin", "file://host/x.bin", "a", "pl[0]", "a.b", "#" + "n" * 300,
-                 "#zażółć.bin", "cache://1/app", "#x", "dep_fake"]
+                 "#zażółć.bin", "cache://1/app", "#x", "dep_fake", "#ws.bin ", " #lead.bin", "#tab\t", "#nl.bin\n", " ", "#A.bin",
+                 "#a.BIN"]
 DEP_NAMES = ["dep_app", "dep_rad", "dep_top", "#dep.suit", "dep_x.y"]
 REGEXES = [None, "nothing_matches_xyz", ".*", "#.*", "dep_.*", r".*\.bin", "dep_app|dep_rad", r"dep_[a-z]+", "a"]
-EB_SIZES = list(range(1, 65)) + [100, 127, 128, 255, 256, 511, 512, 1024, 4096, 8192, 16384, 32768, 65536]
+EB_SIZES = list(range(1, 65)) + [16] * 6 + [100, 127, 128, 255, 256, 511, 512, 1024, 4096, 8192, 16384, 32768, 65536]
 
 
 def fullmatch(rx, name):
@@ -383,6 +384,7 @@ class Cache(Machine):
             pairs.append((uri, data))
         out_rel = op["out"] + ".cache"
         argv = ["cache_create", "from_payloads", "--output-file", host.path(out_rel), "--eb-size", str(eb)] + args
+        argv = self.drop_defaults(argv, {"--eb-size": "16"}, op["i"])
         run = lambda fl=(): host.cli(argv, kind="cache_from_payloads", faults=fl)  # noqa: E731
         o = run(faults)
         self.note(model, o)
@@ -423,7 +425,8 @@ class Cache(Machine):
         ins = [model["caches"][c] for c in op["inputs"]]
         pairs = [p for c in ins for p in c["pairs"]]
         out_rel = op["out"] + ".cache" if op["out"] not in model["caches"] else model["caches"][op["out"]]["rel"]
-        argv = ["cache_create", "merge", "--output-file", host.path(out_rel), "--eb-size", str(eb)]
+        argv = self.drop_defaults(["cache_create", "merge", "--output-file", host.path(out_rel), "--eb-size", str(eb)],
+                                  {"--eb-size": "16"}, op["i"])
         for c in ins:
             argv += ["--input", host.path(c["rel"])]
         in_place = any(c["rel"] == out_rel for c in ins)
@@ -492,6 +495,7 @@ class Cache(Machine):
             argv += ["--omit-payload-regex", op["omit"]]
         if op["dep"] is not None:
             argv += ["--dependency-regex", op["dep"]]
+        argv = self.drop_defaults(argv, {"--eb-size": "16"}, op["i"])
         in_place = out_env_rel == in_rel
         if in_place:
             ex["in_place"] += 1
